@@ -23,7 +23,7 @@ CONSTANTS NIter, MaxLen, SharedCells, QueryIx
 VARIABLES iters, shared, gen, hist
 vars == <<iters, shared, gen, hist>>
 
-a_ == <<97>>  b_ == <<98>>  c_ == <<99>>  k_ == <<107>>  v_ == <<118>>  r_ == <<114>>
+a_ == <<97>>  b_ == <<98>>  c_ == <<99>>  k_ == <<107>>  v_ == <<118>>  r_ == <<114>>  t_ == <<116>>  w_ == <<119>>  o_ == <<111>>
 At1(name) == OQ(Q("@", <<Child(SName(name))>>))
 RootK == OQ(Q("$", <<Child(SName(k_))>>))
 CtxV == OQ(Q("_", <<Child(SName(v_))>>))
@@ -41,14 +41,19 @@ QuerySeq == <<
   Q("$", <<Child(SName(c_)), Child(SFilter(ETest(Q("@", <<Child(SFilter(ECmp("==", RootK, CtxV)))>>))))>>),
   Q("$", <<Child(SName(c_)), Child(SFilter(ECmp("==", OFn("count", <<OQ(Q("@", <<Child(SFilter(ETest(Q("$", <<Child(SName(r_)), Child(SIndex(1))>>))))>>))>>), RootK)))>>),
   \* a bracketed segment with two selectors below a filter: each selector is applied to every parent node in turn
-  Q("$", <<Child(SName(c_)), Child(SFilter(ECmp(">=", At1(a_), RootK))), Seg(FALSE, <<SName(a_), SName(b_)>>)>>) >>
+  Q("$", <<Child(SName(c_)), Child(SFilter(ECmp(">=", At1(a_), RootK))), Seg(FALSE, <<SName(a_), SName(b_)>>)>>),
+  \* a root value that is 1 in one document and true in another: equal to the host, different JSON values (a memo of comparisons keyed by the host's equality)
+  Q("$", <<Child(SName(c_)), Child(SFilter(ECmp("==", At1(a_), OQ(Q("$", <<Child(SName(t_))>>)))))>>),
+  \* a deep comparison of two containers (many steps inside one comparison: what a second thread may interleave with)
+  Q("$", <<Child(SName(c_)), Child(SFilter(ECmp("==", At1(o_), OQ(Q("$", <<Child(SName(w_))>>)))))>>) >>
 TheQuery == QuerySeq[QueryIx]
 
-Cands(k) == Arr(<<Obj(<<a_, b_>>, <<IntV(1), IntV(2)>>), Obj(<<a_>>, <<IntV(2)>>), Obj(<<a_, b_>>, <<IntV(k), IntV(1)>>),
+Deep(x, y) == Obj(<<a_, b_>>, <<Arr(<<IntV(1), Obj(<<c_>>, <<Arr(<<IntV(x)>>)>>)>>), Arr(<<IntV(y)>>)>>)
+Cands(k) == Arr(<<Obj(<<a_, b_, o_>>, <<IntV(1), IntV(2), Deep(1, k)>>), Obj(<<a_, o_>>, <<IntV(2), Deep(k, 2)>>), Obj(<<a_, b_>>, <<IntV(k), IntV(1)>>),
                   Arr(<<Obj(<<a_>>, <<IntV(1)>>), Obj(<<a_>>, <<IntV(2)>>)>>), Obj(<<b_>>, <<IntV(k)>>), IntV(1)>>)
-DocSeq == << Obj(<<k_, c_, r_>>, <<IntV(1), Cands(1), Arr(<<IntV(0)>>)>>),
-             Obj(<<k_, c_, r_>>, <<IntV(2), Cands(2), Arr(<<IntV(0), IntV(0)>>)>>),
-             Obj(<<k_, c_, r_>>, <<IntV(1), Cands(1), Arr(<<IntV(0)>>)>>) >>      \* equal to the first, a different object
+DocSeq == << Obj(<<k_, c_, r_, t_, w_>>, <<IntV(1), Cands(1), Arr(<<IntV(0)>>), IntV(1), Deep(1, 2)>>),
+             Obj(<<k_, c_, r_, t_, w_>>, <<IntV(2), Cands(2), Arr(<<IntV(0), IntV(0)>>), Bool(TRUE), Deep(2, 2)>>),
+             Obj(<<k_, c_, r_, t_, w_>>, <<IntV(1), Cands(1), Arr(<<IntV(0)>>), IntV(1), Deep(1, 2)>>) >>      \* equal to the first, a different object
 CtxSeq == << Obj(<<v_>>, <<IntV(1)>>), Obj(<<v_>>, <<IntV(2)>>) >>
 
 \* the result of a solo evaluation: a function of (query, document, context) alone
